@@ -27,6 +27,7 @@ func (me modEntry) register(g *fgen, k string) {
 	}
 	if me.leafT != nil {
 		g.heapSort[k] = g.heapSortFor(me.root, g.sortOf(me.leafT))
+		g.noteKeyType(k, me.root, me.leafT)
 	}
 }
 
@@ -401,7 +402,50 @@ func (w *world) callMods(kg *fgen, x ssa.CallInstruction, ms *modset) {
 		return
 	}
 	if fc := w.contractFor(callee); fc != nil && fc.hasMod {
-		w.declMods(kg, fc, ms)
+		tmp := newModset()
+		w.declMods(kg, fc, tmp)
+		// a `modifies p` item (p a pointer parameter / receiver) whose argument is a local
+		// of the caller writes only that fresh local
+		if !tmp.all {
+			argOf := map[string]ssa.Value{}
+			as := c.Args
+			if callee.Signature.Recv() != nil && len(as) > 0 {
+				argOf[fc.recvName] = as[0]
+				as = as[1:]
+			}
+			for i, p := range fc.params {
+				if i < len(as) {
+					argOf[p.name] = as[i]
+				}
+			}
+			other := map[string]bool{}
+			var locals []map[string]modEntry
+			for _, item := range fc.modifies {
+				item = strings.TrimSpace(item)
+				keys, err := kg.modKeys(fc, item)
+				if err != nil {
+					continue
+				}
+				if a, ok := argOf[item]; ok {
+					if _, isAlloc := a.(*ssa.Alloc); isAlloc {
+						locals = append(locals, keys)
+						continue
+					}
+				}
+				for k := range keys {
+					other[k] = true
+				}
+			}
+			for _, keys := range locals {
+				for k, me := range keys {
+					if !other[k] && !tmp.coarse(k) {
+						delete(tmp.any, k)
+						tmp.fresh[k] = me
+					}
+				}
+			}
+		}
+		ms.union(tmp)
 		if callee.Blocks != nil {
 			cm := w.modsetOf(callee)
 			for k, v := range cm.fresh {
